@@ -237,13 +237,14 @@ pub fn s2_map(idx: u64) -> RMap {
 // slice M: metadata
 
 pub fn m_count() -> u64 {
-    3 * 3 * 8 * 3
+    3 * 5 * 8 * 3
 }
 
 pub fn m_map(idx: u64) -> RMap {
-    let d = crate::engine::mixed_radix(idx, &[3, 3, 8, 3]);
+    let d = crate::engine::mixed_radix(idx, &[3, 5, 8, 3]);
     let file = [None, Some("f"), Some("é\"")][d[0] as usize];
-    let dbg = [None, Some(DEBUG_ID_NIL), Some(DEBUG_ID_A)][d[1] as usize];
+    // plain UUIDs, a UUID with an appendix, and a PDB 2.0 id (timestamp + age 0)
+    let dbg = [None, Some(DEBUG_ID_NIL), Some(DEBUG_ID_A), Some("dfb8e43a-f242-3d73-a453-aeb6a777ef75-a"), Some("3249d99d0")][d[1] as usize];
     let ignore: Vec<u32> = (0..3).filter(|b| d[2] >> b & 1 == 1).collect();
     RMap {
         file: file.map(str::to_string),
@@ -303,6 +304,8 @@ pub fn section_map_pool() -> Vec<RMap> {
 }
 
 pub const OFFSETS: [(u32, u32); 5] = [(0, 0), (0, 4), (1, 0), (2, 2), (5, 0)];
+/// section offsets at and beyond 2^31 (slice I+H gets one two-section document per pair)
+pub const BIG_OFFSETS: [((u32, u32), (u32, u32)); 3] = [((0, 1 << 31), (1 << 31, 0)), ((5, 0), (u32::MAX, u32::MAX)), ((1 << 31, 1 << 31), ((1 << 31) + 1, 7))];
 
 /// section kinds: 0 = url only, 1 = url + map, 2 = map only
 fn section(off: (u32, u32), kind: usize, map: RDoc) -> RSection {
@@ -338,6 +341,10 @@ pub fn index_docs(thorough: bool) -> Vec<RDoc> {
                 out.push(RDoc::Index(RIndex { file: if k % 2 == 0 { None } else { Some("ix.js".into()) }, sections }));
             }
         }
+    }
+    // section offsets at and beyond 2^31
+    for (a, b) in BIG_OFFSETS {
+        out.push(RDoc::Index(RIndex { file: None, sections: vec![section(a, 2, RDoc::Regular(pool[0].clone())), section(b, 2, RDoc::Regular(pool[1 % pool.len()].clone()))] }));
     }
     // nesting and Hermes sections
     let inner = RDoc::Index(RIndex {
